@@ -138,6 +138,20 @@ def build_harness(release=True):
     return outs
 
 
+H_TRACE = os.path.join(HARNESS, "target-trace", "x86_64-unknown-linux-gnu", "release", "trace")
+SANCOV_FLAGS = ("-Cpasses=sancov-module -Cllvm-args=-sanitizer-coverage-level=3 -Cllvm-args=-sanitizer-coverage-trace-pc-guard "
+                "-Cllvm-args=-sanitizer-coverage-trace-loads -Cllvm-args=-sanitizer-coverage-trace-stores -Ccodegen-units=1")
+
+
+def build_trace():
+    """Trace harness (C14): the crate and the harness compiled with LLVM SanitizerCoverage, release settings."""
+    env = dict(ENV, RUSTFLAGS=SANCOV_FLAGS)
+    rc, out = sh("cargo build --offline -q --release --bin trace --target x86_64-unknown-linux-gnu --target-dir %s" % os.path.join(HARNESS, "target-trace"),
+                 cwd=HARNESS, timeout=1800, env=env)
+    if rc != 0:
+        raise Break("/repo no longer compiles with the SanitizerCoverage trace harness", out[-4000:])
+
+
 def setup_all():
     with Lock():
         regen()
@@ -148,6 +162,7 @@ def setup_all():
             raise SystemExit("coq build failed")
         build_driver()
         build_harness()
+        build_trace()
 
 
 # ------------------------------------------------------------------ proofs
